@@ -1120,3 +1120,23 @@ def _slice_get(ex, p, m, a, func, fr):
         ok = ln != bv64(0)
     cell = p.alloc((z3.Select(arr, off + i), 'u8'), 'elem')
     return [dict(cond=ok, value=opt_some(cell)), dict(cond=z3.Not(ok), value=opt_none())]
+
+
+# --------------------------------------------------------------------------- vec![..] expansion (Box::new_uninit + raw write + assume_init_into_vec)
+@model(r'^(?:std::boxed::)?Box::<\[.*\]>::new_uninit$')
+def _box_new_uninit(ex, p, m, a, func, fr):
+    cell = p.alloc(None, 'uninit')
+    return one(Agg('struct', (Agg('struct', (cell,), 'NonNull'),), 'BoxUninit'))
+
+
+@model(r'^(?:std::boxed::)?box_assume_init_into_vec_unsafe::<.*>$')
+def _box_into_vec(ex, p, m, a, func, fr):
+    cell = a[0].fields[0].fields[0]
+    v = ex.load(p.st, cell.base, cell.proj)
+    # MaybeUninit { value: ManuallyDrop { MaybeDangling { T } } }
+    for _ in range(3):
+        if isinstance(v, Agg) and v.kind == 'struct' and v.fields:
+            v = v.fields[-1]
+    if isinstance(v, Arr) and v.elemty == 'u8':
+        return one(Buf('vec', v.arr, bv64(0), v.nterm()))
+    return one(v)
